@@ -37,6 +37,17 @@ def plan(tier, seed):
     if not quick:
         # every value of the 31/32-digit built-in types (2^31 / 2^32 cases each), striped over 16 processes
         units.append(Unit('C19-gxx-full32', 'gxx', 'props/C19.h', [r for r in regs if '"int|int"' in r or '"int|unsigned"' in r], rc_cases=0, enum_max=2 ** 32, chunk=2))
+    # every digit count / every even exponent
+    sweeps = [
+        ('Sw_wide_i', 'c19::Sqrt<cnl::wide_integer<E, int>, E, 0>', 'wide|sweep|E|int', 65, 192),
+        ('Sw_wide_u', 'c19::Sqrt<cnl::wide_integer<E, unsigned>, E, 0>', 'wide|sweep|E|unsigned', 65, 192),
+        ('Sw_el_i', 'c19::Sqrt<cnl::elastic_integer<E, int>, E, 1>', 'elastic|sweep|E|int', 1, 126),
+        ('Sw_el_u', 'c19::Sqrt<cnl::elastic_integer<E, unsigned>, E, 1>', 'elastic|sweep|E|unsigned', 1, 126),
+        ('Sw_sc_s64', 'c19::Sqrt<cnl::scaled_integer<long, cnl::power<2 * E>>, 63, 2, 2 * E, 2>', 'scaled|sweep|long|2E', -35, 35),
+        ('Sw_sc_u32', 'c19::Sqrt<cnl::scaled_integer<unsigned, cnl::power<2 * E>>, 32, 2, 2 * E, 2>', 'scaled|sweep|unsigned|2E', -35, 35),
+        ('Sw_sc_s16', 'c19::Sqrt<cnl::scaled_integer<short, cnl::power<2 * E>>, 15, 2, 2 * E, 2>', 'scaled|sweep|short|2E', -35, 35),
+    ]
+    units += sweep_units('C19', 'props/C19.h', sweeps, cases, nunits=12, keep=(lambda i, r: i % 2 == 0) if quick else None, tick_limit=100000)
     p = dict(units=units, rule=RULE, assumptions=['termination is "within 1e5 iterations of the instrumented loops"'])
     if not quick:
         p['stripes'] = {u.name: (16 if u.name.endswith('full32') else 4) for u in units}
